@@ -1005,7 +1005,19 @@ func c02Corpus() []c02Cmd {
 		c02Search(false, imap.SearchCriteria{Since: d(2020, 1, 1, 23, time.UTC), Before: d(2020, 1, 2, 23, time.UTC).In(time.FixedZone("p", 11*3600))}, nil),
 		c02Search(false, imap.SearchCriteria{SentSince: d(2020, 1, 1, 23, time.UTC), SentBefore: d(2020, 1, 2, 23, time.UTC).In(time.FixedZone("p", 11*3600))}, nil),
 		c02Search(false, imap.SearchCriteria{Smaller: 5, Not: []imap.SearchCriteria{{Larger: 1}}}, nil),
+		// the server's nesting limits (Decoder.List: 1000 lists; NOT/OR: depth 1000): 999 levels are delivered, 1000 are refused
+		c02Search(false, c02NotChain(999), nil),
+		c02Search(true, c02NotChain(1000), nil),
 	}
+}
+
+// c02NotChain builds a criteria tree of the given nesting depth: NOT (NOT (… (SEEN))).
+func c02NotChain(depth int) imap.SearchCriteria {
+	c := imap.SearchCriteria{Flag: []imap.Flag{imap.FlagSeen}}
+	for i := 1; i < depth; i++ {
+		c = imap.SearchCriteria{Not: []imap.SearchCriteria{c}}
+	}
+	return c
 }
 
 func genC02(e *emitter, tier string, seed uint64) {
